@@ -29,6 +29,10 @@ def view_eq(I, a, b, depth=0):
     a, b = I.unopt(a) if isinstance(a, SOpt) and is_concrete_bool(a.isnone) else a, b
     if a is b:
         return z3.BoolVal(True)
+    if isinstance(a, SMapped) and a.src is b and I.codec is not None:
+        # a list rebuilt element by element from the source list: equal iff the rebuilt generic
+        # element equals the source's generic element on what the writer transferred
+        return view_eq(I, a.value, I.codec.generic_of(b)[1], depth + 1)
     if isinstance(a, SMapped) or isinstance(b, SMapped):
         return z3.BoolVal(False)
     if isinstance(a, (SList, STuple)) and isinstance(b, LList):
@@ -69,8 +73,9 @@ def view_eq(I, a, b, depth=0):
                 except Unsupported:
                     pass
             if not hasattr(a.cands[0], "write"):
-                # a plain record class: structural comparison of the fields either side has
-                names = sorted(set(a.fields) | set(b.fields))
+                # a plain record class: structural comparison on the fields the written object
+                # exposes (for a lazily initialised source element: exactly what the writer read)
+                names = sorted(set(b.fields)) if b.lazy else sorted(set(a.fields) | set(b.fields))
                 parts = []
                 for n in names:
                     try:
@@ -153,6 +158,79 @@ class CodecTarget(Target):
         self.raises = ()
         return Target.run(self)
 
+    def replay_refuted(self, I, env, obs, outcome):
+        """native replay: the model's object is written with the real WriteBuffer, read back with the
+        real ReadBuffer, and the slot named by the refuted obligation is compared natively"""
+        done = None
+        for ob in obs:
+            if ob.status != "refuted":
+                continue
+            if done is None:
+                done = self.native_roundtrip(I, env, ob)
+            ob.native = done if ob.name in (done.get("for") or [ob.name]) else self.native_roundtrip(I, env, ob)
+
+    def native_roundtrip(self, I, env, ob):
+        from .native import CannotNativize, Nativizer, show
+
+        out = {"confirmed": False, "for": [ob.name]}
+        if ob.z3model is None:
+            out["note"] = "no solver model"
+            return out
+        try:
+            nz = Nativizer(I, ob.z3model, pre=True)
+            nz.nat(env["self"])
+            nz.memo = {}
+            obj = nz.nat(env["self"])
+        except CannotNativize as e:
+            out["note"] = f"cannot build the native object: {e}"
+            return out
+        except Exception as e:
+            out["note"] = f"nativisation failed: {e!r}"
+            return out
+        out["inputs"] = {"self": show(obj)}
+        try:
+            import mypy.types  # noqa: F401  (nodes.write refers to mypy.types lazily)
+            from mypy.cache import ReadBuffer, WriteBuffer, read_tag
+
+            buf = WriteBuffer()
+            try:
+                getattr(obj, self.writer_name)(buf)
+            except BaseException as e:  # noqa: BLE001
+                out["note"] = f"the native object could not be written (incomplete nested objects): {type(e).__name__}: {str(e)[:120]}"
+                return out
+            rb = ReadBuffer(buf.getvalue())
+            if self.read_skips_tag:
+                read_tag(rb)
+            extra = []
+            if self.read_args:
+                extra = [nz.nat(a) for a in self.read_args(I, env)]
+            R = getattr(self.cls, self.reader_name)(rb, *extra)
+        except BaseException as e:  # noqa: BLE001
+            out["observed"] = {"raised": type(e).__name__, "message": str(e)[:200]}
+            out["confirmed"] = ob.name.startswith("codec/reader-accepts-writer-output") or ob.name.startswith("raises/")
+            return out
+        if ob.name.startswith("codec/view/"):
+            slot = ob.name.split("/")[-1]
+            getter = self.view.get(slot)
+            try:
+                want = getattr(obj, slot) if getter is None else None
+                got = getattr(R, slot)
+            except AttributeError as e:
+                out["observed"] = {"missing": str(e)}
+                out["confirmed"] = True
+                return out
+            if getter is None:
+                out["observed"] = {"written": show(want), "reloaded": show(got)}
+                try:
+                    out["confirmed"] = bool(want != got)
+                except Exception:
+                    out["confirmed"] = False
+            else:
+                out["note"] = "view slot with a computed writer side: not compared natively"
+        else:
+            out["observed"] = {"reloaded": show(R)}
+        return out
+
     def build_by_constructor(self, I):
         """the object under proof is what the real __init__ builds from arbitrary arguments (so that the
         class invariants the constructor establishes hold); invalid argument combinations (a failing
@@ -164,6 +242,8 @@ class CodecTarget(Target):
 
         cls = self.cls
         init = inspect.getattr_static(cls, "__init__")
+        if not isinstance(init, pytypes.FunctionType):
+            return I.new_object(cls)  # no constructor of its own
         fnode, mod = func_node(init)
         if fnode is None:
             raise Unsupported(f"{cls.__name__}.__init__ is not repo source")
